@@ -11,6 +11,8 @@ import (
 	banktypes "cosmossdk.io/x/bank/types"
 	slashingtypes "cosmossdk.io/x/slashing/types"
 	stakingtypes "cosmossdk.io/x/staking/types"
+	abci "github.com/cometbft/cometbft/abci/types"
+	cmttypes "github.com/cometbft/cometbft/types"
 	sdk "github.com/cosmos/cosmos-sdk/types"
 
 	dakeeper "github.com/sunriselayer/sunrise/x/da/keeper"
@@ -280,6 +282,97 @@ func offClass(dt time.Duration) string {
 		return "1ns"
 	default:
 		return "subsecond"
+	}
+}
+
+// proposalCase calls the real PrepareProposal with the transactions queued for the next block
+// (plus filler sends) as the candidate list and a budget around their size.
+func (rn *runner) proposalCase(tag string) {
+	w, r := rn.w, rn.r
+	h := w.h
+	size := func(xs [][]byte) int64 {
+		var t []cmttypes.Tx
+		for _, x := range xs {
+			t = append(t, cmttypes.Tx(x))
+		}
+		return cmttypes.ComputeProtoSizeForTxs(t)
+	}
+	cands := append([][]byte{}, w.txs...)
+	seqSave := map[string]uint64{}
+	for k, v := range w.txSeq {
+		seqSave[k] = v
+	}
+	for i := 0; i < 2+r.Intn(6); i++ {
+		a := r.Intn(6)
+		bz, err := w.signTx(h.Accts[a], []sdk.Msg{&banktypes.MsgSend{FromAddress: h.Accts[a].Addr.String(), ToAddress: h.Accts[(a+1)%6].Addr.String(),
+			Amount: sdk.NewCoins(sdk.NewInt64Coin("urise", int64(1+i)))}}, 500_000)
+		if err != nil {
+			panic(err)
+		}
+		cands = append(cands, bz)
+	}
+	w.txSeq = seqSave // the filler is not part of the block that follows
+	full := size(cands)
+	max := emit.Pick(r, full, full, full+5, full+37, full+200, full/2, full-1, 10, 60, 1<<20)
+	verified, err := h.App.DaKeeper.GetSpecificStatusData(h.Ctx(), datypes.Status_STATUS_VERIFIED)
+	if err != nil {
+		panic(err)
+	}
+	var entries []string
+	for _, d := range verified {
+		m := datypes.MetadataUriWrapper{MetadataUri: d.MetadataUri}
+		bz, _ := m.Marshal()
+		entries = append(entries, emit.ZI(size([][]byte{bz})))
+	}
+	split := size([][]byte{[]byte("METADATA")})
+	var resp *abci.PrepareProposalResponse
+	func() {
+		defer func() {
+			if rec := recover(); rec != nil {
+				err = fmt.Errorf("panic: %v", rec)
+			}
+		}()
+		resp, err = h.App.PrepareProposal(&abci.PrepareProposalRequest{MaxTxBytes: max, Txs: cands, Height: h.Height + 1, Time: h.Time.Add(time.Second)})
+	}()
+	if err != nil {
+		panic(fmt.Sprintf("PrepareProposal: %v", err))
+	}
+	var meta []string
+	in := false
+	for _, bz := range resp.Txs {
+		if !in && string(bz) == "METADATA" {
+			in = true
+		}
+		if in {
+			meta = append(meta, emit.ZI(size([][]byte{bz})))
+		}
+	}
+	total := size(resp.Txs)
+	rn.add(fmt.Sprintf("(CProposal %d %d %s %s %d)", max, split, emit.List(entries), emit.List(meta), total),
+		map[string]any{"kind": "prepare-proposal", "tag": tag, "max_tx_bytes": max, "candidates": len(cands), "candidate_bytes": full,
+			"verified_items": len(verified), "response_entries": len(resp.Txs), "response_bytes": total, "metadata_entries": len(meta), "seed": rn.seed})
+	rn.st.Count("prepare-proposal")
+	if len(verified) > 0 {
+		rn.st.Count("prepare-proposal:with-verified-items")
+		rn.st.Nontriv(fmt.Sprintf("proposal|v%d|%s|meta%d", min(len(verified), 4), budgetClass(max, full), min(len(meta), 4)))
+	}
+	if total > max {
+		rn.st.Count("prepare-proposal:exceeds-max-tx-bytes")
+	}
+}
+
+func budgetClass(max, full int64) string {
+	switch {
+	case max < full/2+1:
+		return "small"
+	case max < full:
+		return "below"
+	case max == full:
+		return "exact"
+	case max < full+300:
+		return "just-above"
+	default:
+		return "large"
 	}
 }
 
@@ -813,6 +906,10 @@ func (rn *runner) history(nBlocks int) {
 		}
 		if r.Chance(1, 15) {
 			rn.liParams()
+		}
+		vs, _ := rn.w.h.App.DaKeeper.GetSpecificStatusData(rn.w.h.Ctx(), datypes.Status_STATUS_VERIFIED)
+		if r.Chance(1, 8) || (len(vs) > 0 && r.Chance(1, 2)) {
+			rn.proposalCase("generated")
 		}
 		var extra [][]byte
 		if r.Chance(1, 5) {
